@@ -160,3 +160,8 @@ package xpair1
 //@ func (*socket).SetOption
 //@   ensures (name == protocol.OptionReadQLen || name == protocol.OptionWriteQLen) && isnil(result) ==> evcount("closed") == 1
 //@   ensures !isnil(result) ==> evcount("closed") == 0
+// ---- generated Info contracts (tools/gen_info_contracts.py) ----
+//@ func (*socket).Info
+//@   ensures result.Self == 17 && result.Peer == 17 && result.SelfName == "pair1" && result.PeerName == "pair1"
+//@
+// ---- end generated Info contracts ----
